@@ -6,5 +6,6 @@ for p in C01 C02 C03 C04 C05 C06 C07 C08 C09 C10 C11 C12 C13 C14 C15 C16 C17 C18
   out=$(VERIF_SEED=$SEED ./check $p --tier $TIER 2>&1); rc=$?
   echo "$out" | grep -E "^(VIOLATION|INCONCLUSIVE)" | cut -c1-300
   echo "$out" | tail -1 | cut -c1-200
-  [ $rc -ne 0 ] && echo "   ^^^ rc=$rc"
+  if [ $rc -ne 0 ]; then echo "   ^^^ rc=$rc"; FAIL=1; fi
 done
+exit ${FAIL:-0}
